@@ -69,6 +69,10 @@ const (
 	chWSClient  = "websocket-client"
 	chHookOK    = "webhook"
 	chHookFail  = "webhook-failing"
+	chHookOK2   = "webhook-2"
+	urlHookOK2  = "http://hook-second.verif.example/events"
+	chHookOK3   = "webhook-3"
+	urlHookOK3  = "http://a-hook-third.verif.example/events"
 	urlHookOK   = "http://hook-ok.verif.example/events"
 	urlHookFail = "http://hook-failing.verif.example/events"
 )
@@ -311,13 +315,33 @@ func (l *liveWS) close() {
 	_ = l.ws.Shutdown()
 }
 
+// faultyWebhooks wraps the SQL webhooks repository: UpdateWebhook (the bookkeeping write after a delivery) returns an
+// error for one healthy webhook per armed event. The delivery itself has happened; the other webhooks must still be served.
+type faultyWebhooks struct {
+	notification.Webhooks
+	e *env
+}
+
+func (f *faultyWebhooks) UpdateWebhook(w *notification.Webhook) error {
+	if f.e.failHookUpdate.Load() && w.URL != urlHookFail && f.e.failHookUpdate.CompareAndSwap(true, false) {
+		f.e.hookUpdateFailures.Add(1)
+		return errors.New("verif: injected webhook bookkeeping failure (database is locked)")
+	}
+	return f.Webhooks.UpdateWebhook(w)
+}
+
 // recClient is a recording notification.WebhookTargetClient.
 type recClient struct{ b *board }
 
 func (c *recClient) Call(_ map[string]string, method string, url string, body any) (*http.Response, error) {
 	ch := chHookOK
-	if url == urlHookFail {
+	switch url {
+	case urlHookFail:
 		ch = chHookFail
+	case urlHookOK2:
+		ch = chHookOK2
+	case urlHookOK3:
+		ch = chHookOK3
 	}
 	c.b.rec.add(delivery{Channel: ch, Payload: marshal(body), Sync: insideAdd(), Extra: method})
 	if ch == chHookFail {
@@ -386,7 +410,9 @@ type env struct {
 	// fault injection (ingesting goroutine only)
 	failInsert, failUpdate bool
 	injected               string
-	base                   int // goroutine baseline
+	failHookUpdate         atomic.Bool  // the next UpdateWebhook of a healthy webhook fails (armed per submission)
+	hookUpdateFailures     atomic.Int64 // how many were injected
+	base                   int          // goroutine baseline
 	live                   *liveWS
 }
 
@@ -411,7 +437,11 @@ func newEnv(r *ev.Run, live bool) (*env, error) {
 	st, err := rig.New(rig.Options{
 		Dir: r.Scratch, Name: name, NoHTTP: true,
 		WrapHeaders: deco.Wrap(hooks),
-		WrapRepos:   func(rp *repository.Repositories) { e.repos = rp },
+		WrapRepos: func(rp *repository.Repositories) {
+			// bookkeeping failures of the webhooks store: UpdateWebhook of a healthy webhook fails now and then
+			rp.Webhooks = &faultyWebhooks{Webhooks: rp.Webhooks, e: e}
+			e.repos = rp
+		},
 		AfterSvc: func(s *service.Services, c *config.AppConfig) {
 			lg := *s.Logger
 			// same wiring as cmd/main.go: webhooks service + websocket channel on the real Notifier,
@@ -438,6 +468,12 @@ func newEnv(r *ev.Run, live bool) (*env, error) {
 		return nil, err
 	}
 	e.st = st
+	// SQL-level insert failure: while armed, every INSERT into headers aborts inside SQLite (below the repository seam)
+	if _, err := st.DB.Exec(`CREATE TABLE IF NOT EXISTS verif_c11(armed INTEGER); DELETE FROM verif_c11; INSERT INTO verif_c11 VALUES (0);
+CREATE TRIGGER IF NOT EXISTS verif_c11_ins BEFORE INSERT ON headers WHEN (SELECT armed FROM verif_c11) = 1 BEGIN SELECT RAISE(ABORT, 'verif: injected insert failure inside sqlite'); END;`); err != nil {
+		st.Destroy()
+		return nil, err
+	}
 	if live {
 		if liveErr == nil {
 			liveErr = e.live.connect()
@@ -540,7 +576,7 @@ func (e *env) runHistory(caseID string, rng *rand.Rand, hist gen.History, pFail 
 		r.Violate("harness|reset", err.Error(), caseID, nil)
 		return
 	}
-	for _, u := range []string{urlHookOK, urlHookFail} {
+	for _, u := range []string{urlHookOK, urlHookFail, urlHookOK2, urlHookOK3} {
 		if _, err := e.st.Svc.Webhooks.CreateWebhook("BEARER", "", "c11-token", u); err != nil {
 			r.Violate("harness|create-webhook", err.Error(), caseID, nil)
 			return
@@ -549,7 +585,7 @@ func (e *env) runHistory(caseID string, rng *rand.Rand, hist gen.History, pFail 
 	// behaviours for this history: three of the four, in random order
 	perm := rng.Perm(len(behaviours))
 	beh := map[string]string{}
-	kind := map[string]string{chWS: chWS, chHookOK: chHookOK, chHookFail: chHookFail}
+	kind := map[string]string{chWS: chWS, chHookOK: chHookOK, chHookFail: chHookFail, chHookOK2: chHookOK2, chHookOK3: chHookOK3}
 	var blockedNames []string
 	for i, n := range e.names {
 		beh[n] = behaviours[perm[i]]
@@ -597,14 +633,29 @@ func (e *env) runHistory(caseID string, rng *rand.Rand, hist gen.History, pFail 
 	for i := 0; i < len(work); i++ {
 		h := work[i]
 		e.failInsert, e.failUpdate, e.injected = false, false, ""
+		sqlFail := false
 		if pFail > 0 && !retried[i] && rng.Float64() < pFail {
-			if failUpdates && rng.Intn(2) == 0 {
+			switch {
+			case failUpdates && rng.Intn(2) == 0:
 				e.failUpdate = true
-			} else {
+			case rng.Intn(3) == 0:
+				sqlFail = true // the INSERT itself fails inside SQLite
+			default:
 				e.failInsert = true
 			}
 		}
+		if rng.Intn(8) == 0 {
+			e.failHookUpdate.Store(true) // the bookkeeping write for one healthy webhook fails during this event's delivery
+		}
+		if sqlFail {
+			_, _ = e.st.DB.Exec(`UPDATE verif_c11 SET armed = 1`)
+		}
 		res := e.st.Add(h)
+		if sqlFail {
+			_, _ = e.st.DB.Exec(`UPDATE verif_c11 SET armed = 0`)
+			e.injected = "insert"
+			r.Count("sql_level_insert_failures_injected", 1)
+		}
 		s := submission{Idx: i, Hash: h.HashOf().String(), Code: res.Code(), Injected: e.injected, Parked: b.parked.Load()}
 		if s.Parked > 0 {
 			returnedWhileBlocked++
@@ -634,12 +685,16 @@ func (e *env) runHistory(caseID string, rng *rand.Rand, hist gen.History, pFail 
 	}
 	hist = gen.History{Hdrs: work} // what was really submitted (replay detail, shape signature)
 	e.failInsert, e.failUpdate = false, false
+	defer func() {
+		e.failHookUpdate.Store(false)
+		r.Count("webhook_bookkeeping_failures_injected", e.hookUpdateFailures.Swap(0))
+	}()
 	r.Count("submissions", int64(len(subs)))
 	r.Count("stored_headers", int64(nStored))
 	r.Count("adds_returned_while_a_delivery_was_parked", int64(returnedWhileBlocked))
 
 	// ---- phase 1: quiescence with the blocked channels still blocked
-	nonBlocked := []string{chWS, chHookOK}
+	nonBlocked := []string{chWS, chHookOK, chHookOK2, chHookOK3}
 	for _, n := range e.names {
 		if beh[n] != bBlocked {
 			nonBlocked = append(nonBlocked, n)
@@ -726,7 +781,7 @@ func (e *env) runHistory(caseID string, rng *rand.Rand, hist gen.History, pFail 
 			if d.Channel == chWS && d.Extra != "headers" {
 				violate("websocket|wrong-channel-name", "published to websocket channel "+d.Extra, nil)
 			}
-			if (d.Channel == chHookOK || d.Channel == chHookFail) && d.Extra != http.MethodPost {
+			if (d.Channel == chHookOK || d.Channel == chHookFail || d.Channel == chHookOK2 || d.Channel == chHookOK3) && d.Extra != http.MethodPost {
 				violate("webhook|method", "webhook called with "+d.Extra, nil)
 			}
 			if phase == 1 && kind[d.Channel] != "recording:"+bBlocked {
@@ -752,7 +807,7 @@ func (e *env) runHistory(caseID string, rng *rand.Rand, hist gen.History, pFail 
 		sort.Strings(ks)
 		violate("sync-delivery", "events were delivered on the goroutine executing Chains.Add (a slow or blocking channel would stall ingestion); channels: "+strings.Join(ks, ", "), map[string]any{"channels": ks})
 	}
-	channels := append([]string{chWS, chHookOK}, e.names...)
+	channels := append([]string{chWS, chHookOK, chHookOK2, chHookOK3}, e.names...)
 	if e.live != nil {
 		channels = append(channels, chWSClient)
 	}
